@@ -59,6 +59,10 @@ RULE = (
     'was compared under at least one non-fresh condition')
 
 NETWORK_PREFIXES = ('check_', 'search_')
+# modules through which the library itself lazily imports country packages / opens registries
+ENTRY_MODULES = ('stdnum.iban', 'stdnum.eu.vat', 'stdnum.vatin', 'stdnum.util', 'stdnum.numdb')
+# top-level modules (parent package = stdnum only) that open registries lazily; not pre-imported in the lazy flavour
+LAZY_TOPLEVEL = ('stdnum.isbn', 'stdnum.imsi', 'stdnum.mac', 'stdnum.isil', 'stdnum.cfi', 'stdnum.gs1_128', 'stdnum.ismn', 'stdnum.issn', 'stdnum.isan')
 CACHE_MODULES = (
     'stdnum.iban', 'stdnum.eu.vat', 'stdnum.vatin', 'stdnum.isbn', 'stdnum.imsi', 'stdnum.mac', 'stdnum.isil',
     'stdnum.cfi', 'stdnum.gs1_128', 'stdnum.be.iban', 'stdnum.es.iban', 'stdnum.no.iban', 'stdnum.me.iban',
@@ -218,11 +222,36 @@ def child_history(req):
 def child_threads(req):
     import threading
     sys.setswitchinterval(1e-6)
-    if req.get('preimport', True):
+    import importlib
+    for name in req.get('preimport', ['stdnum']):
         # A program imports the package before it starts threads.  (Without this, two threads doing the very
         # first `import stdnum.<x>` at once can get importlib's _DeadlockError, because stdnum/__init__.py
         # imports its own submodule stdnum.util — see the `cold` probe in search().)
-        import stdnum   # noqa: F401
+        importlib.import_module(name)
+    diag = []
+    if req.get('diagnose'):
+        # diagnostic aid: same code as stdnum.util.get_cc_module, but records why it returns None
+        import traceback
+        import stdnum.util
+
+        def get_cc_module(cc, name):
+            cc = cc.lower()
+            if cc in ('in', 'is', 'if'):
+                cc += '_'
+            try:
+                mod = __import__('stdnum.%s' % cc, globals(), locals(), [name])
+                r = getattr(mod, name, None)
+                if r is None:
+                    diag.append(['getattr gave None', cc, name, sorted(k for k in vars(mod) if not k.startswith('__')),
+                                 bool(getattr(mod.__spec__, '_initializing', False))])
+                return r
+            except ImportError as e:
+                diag.append(['ImportError', cc, name, [ln.strip() for ln in traceback.format_exception(e)[-8:]]])
+                return
+        stdnum.util.get_cc_module = get_cc_module
+        for m in ('stdnum.iban', 'stdnum.eu.vat', 'stdnum.vatin'):
+            if m in sys.modules:
+                sys.modules[m].get_cc_module = get_cc_module
     n = req['nthreads']
     plans = req['plans']            # one list of descriptors per thread
     results = [None] * n
@@ -246,7 +275,7 @@ def child_threads(req):
         t.start()
     for t in threads:
         t.join(timeout=req.get('timeout', 120))
-    return {'outs': results, 'traces': TRACES}
+    return {'outs': results, 'traces': TRACES, 'diag': diag}
 
 
 def child_alias(req):
@@ -372,6 +401,34 @@ def build_descriptors(rng, target=2000):
     ]
     for m, f, a, k in extras:
         descs.append({'module': m, 'function': f, 'args': a, 'kwargs': k})
+    from stdnum.util import get_cc_module
+    import stdnum.eu.vat
+    ccs = sorted({m.__name__.split('.')[1] for m in common.number_modules() if m.__name__.count('.') == 2})
+    for cc in ccs:
+        vat = get_cc_module(cc, 'vat')
+        if vat is None:
+            continue
+        v = corpus.get(vat.__name__, {}).get('valid', [])
+        if not v:
+            continue
+        try:
+            c = vat.compact(rng.choice(v))
+        except Exception:   # noqa: B902
+            continue
+        code = cc.rstrip('_')
+        code = {'gr': 'el'}.get(code, code)
+        descs.append({'module': 'stdnum.vatin', 'function': 'validate', 'args': [code.upper() + c]})
+        descs.append({'module': 'stdnum.vatin', 'function': 'is_valid', 'args': [code + c]})
+        if code in stdnum.eu.vat.MEMBER_STATES or code == 'el':
+            descs.append({'module': 'stdnum.eu.vat', 'function': 'validate', 'args': [code.upper() + c]})
+            descs.append({'module': 'stdnum.eu.vat', 'function': 'compact', 'args': [code + ' ' + c]})
+    for cc in ccs:
+        ib = get_cc_module(cc, 'iban')
+        if ib is None:
+            continue
+        for v in corpus.get(ib.__name__, {}).get('valid', [])[:2]:
+            descs.append({'module': 'stdnum.iban', 'function': 'validate', 'args': [v]})
+            descs.append({'module': 'stdnum.iban', 'function': 'is_valid', 'args': [v.lower()]})
     for cc in ['nl', 'NL', 'in', 'is', 'zz', 'gb', 'be', 'Nl']:
         for nm in ['vat', 'iban', 'pan', 'nosuch']:
             descs.append({'module': 'stdnum.util', 'function': 'get_cc_module', 'args': [cc, nm]})
@@ -571,6 +628,7 @@ def search(seed, tier):
     n = 0
     thread_runs = []
     reps = 1 if tier == 'quick' else 3
+    entry = [d for d in descs if d['module'] in ENTRY_MODULES or d['module'] in LAZY_TOPLEVEL]
     for nthreads in (2, 8, 16):
         for rep in range(reps):
             for mut in (False, True):
@@ -583,29 +641,48 @@ def search(seed, tier):
                     core = list(cachey)
                     r.shuffle(core)
                     plans.append(core + rest[i * per:(i + 1) * per])
-                thread_runs.append({'mode': 'threads', 'nthreads': nthreads, 'plans': plans, 'seed': seed + rep, 'mutate': mut, 'timeout': 150})
-    cold_runs = [dict(tr, preimport=False) for tr in thread_runs if not tr['mutate']]
+                thread_runs.append({'mode': 'threads', 'flavour': 'threads', 'nthreads': nthreads, 'plans': plans, 'seed': seed + rep,
+                                    'mutate': mut, 'timeout': 150, 'preimport': ['stdnum']})
+            # only the library's own lazy loading: the caller has imported the entry modules up front and calls nothing else
+            r = random.Random(seed * 32452843 + nthreads * 100 + rep)
+            plans = []
+            for i in range(nthreads):
+                core = list(entry)
+                r.shuffle(core)
+                plans.append(core)
+            thread_runs.append({'mode': 'threads', 'flavour': 'lazy', 'nthreads': nthreads, 'plans': plans, 'seed': seed + rep,
+                                'mutate': bool(rep % 2), 'timeout': 150, 'preimport': ['stdnum'] + sorted(ENTRY_MODULES)})
+    cold_runs = [dict(tr, preimport=[], flavour='cold') for tr in thread_runs if tr['flavour'] == 'threads' and not tr['mutate']]
     results = run_parallel(thread_runs + cold_runs, workers=6, timeout=240)
-    cold = {'runs': 0, 'runs_with_deviation': 0, 'deviating_outcomes': {}}
+    cold = {'runs': 0, 'runs_with_deviation': 0, 'deviating_outcomes': {}, 'example_traceback': None}
     for req, r in zip(cold_runs, results[len(thread_runs):]):
         cold['runs'] += 1
         dev = False
-        for i, outs in enumerate((r.get('result') or {}).get('outs') or []):
+        res = r.get('result') or {}
+        for i, outs in enumerate(res.get('outs') or []):
             for d, o in zip(req['plans'][i], outs or []):
                 if ref.get(dkey(d)) is not None and o != ref[dkey(d)]:
                     dev = True
-                    cold['deviating_outcomes'][o[1] if o[0] == 'err' else 'value'] = cold['deviating_outcomes'].get(o[1] if o[0] == 'err' else 'value', 0) + 1
+                    cls = o[1] if o[0] == 'err' else 'value'
+                    cold['deviating_outcomes'][cls] = cold['deviating_outcomes'].get(cls, 0) + 1
+                    tb = res.get('traces', {}).get('%s in %s.%s' % (cls, d['module'], d['function']))
+                    if tb and cold['example_traceback'] is None:
+                        cold['example_traceback'] = tb
         cold['runs_with_deviation'] += dev
     distribution['cold_package_import'] = cold
+    import_lock = {'runs': 0, 'runs_with_DeadlockError': 0, 'DeadlockError_outcomes': 0, 'example': None}
     results = results[:len(thread_runs)]
     for req, r in zip(thread_runs, results):
-        label = 'threads=%d%s' % (req['nthreads'], ' +mutation' if req['mutate'] else '')
+        lazy = req['flavour'] == 'lazy'
+        label = '%s=%d%s' % ('threads(lazy loads only)' if lazy else 'threads', req['nthreads'], ' +mutation' if req['mutate'] else '')
         if 'error' in r:
             failing.append({'module': 'stdnum', 'function': '(threads)', 'args': [], 'observed': r['error'], 'expected': 'all threads finish',
                             'relation': 'threads terminate', 'site': 'c13:threads:' + r['error'].split(':')[0], 'history': []})
             continue
         cnt = 0
         traces = r['result'].get('traces', {})
+        import_lock['runs'] += 0 if lazy else 1
+        had_deadlock = False
         for i, outs in enumerate(r['result']['outs']):
             if outs is None:
                 failing.append({'module': 'stdnum', 'function': '(threads)', 'args': [], 'observed': 'thread %d did not finish' % i,
@@ -614,16 +691,29 @@ def search(seed, tier):
             for d, o in zip(req['plans'][i], outs):
                 cnt += 1
                 v = check(d, o, label, None)
-                if v:
-                    site = 'c13:threads:%s.%s' % (d['module'], d['function'])
-                    if site not in seen_sites:
-                        seen_sites.add(site)
-                        tb = traces.get('%s in %s.%s' % (o[1], d['module'], d['function'])) if o[0] == 'err' else None
-                        failing.append(case_of(d, show(o) + ' (%s, thread %d)' % (label, i), show(ref[dkey(d)]),
-                                               'outcome under concurrent first use = fresh outcome', site,
-                                               extra={'threads': req['nthreads'], 'mutation': req['mutate'], 'traceback': tb}))
+                if not v:
+                    continue
+                tb = traces.get('%s in %s.%s' % (o[1], d['module'], d['function'])) if o[0] == 'err' else None
+                if o == ['err', '_DeadlockError'] and not lazy:
+                    # CPython's import-lock deadlock avoidance, triggered by the CALLER's concurrent first
+                    # `import stdnum.<cc>.<x>` (here: this harness) against another first import of package
+                    # stdnum.<cc>, whose __init__ imports its own submodule.  Outside the library's lazy loading
+                    # (see the `lazy` flavour, where it would be reported); counted, not reported.
+                    had_deadlock = True
+                    import_lock['DeadlockError_outcomes'] += 1
+                    if import_lock['example'] is None:
+                        import_lock['example'] = {'call': short(d), 'threads': req['nthreads'], 'traceback': tb}
+                    continue
+                site = 'c13:threads:%s.%s' % (d['module'], d['function'])
+                if site not in seen_sites:
+                    seen_sites.add(site)
+                    failing.append(case_of(d, show(o) + ' (%s, thread %d)' % (label, i), show(ref[dkey(d)]),
+                                           'outcome under concurrent first use = fresh outcome', site,
+                                           extra={'threads': req['nthreads'], 'mutation': req['mutate'], 'flavour': req['flavour'], 'traceback': tb}))
+        import_lock['runs_with_DeadlockError'] += had_deadlock
         n += cnt
         distribution['conditions'][label] = distribution['conditions'].get(label, 0) + cnt
+    distribution['import_lock_in_caller_imports'] = import_lock
     cases += n
 
     # ---- aliasing scan
